@@ -6,6 +6,9 @@
 CONSTANTS
   MaxSend = 1
   EofWithData = TRUE
+  ShapesA <- LocalShapes
+  ShapesB <- AllShapes
+  DevCloseWriterFallback = FALSE
   Emit = @@EMIT@@
   Classes = {1, 2, 3, 4}
   BatchSize = 32
@@ -21,6 +24,9 @@ CONSTANTS
   DevSpin = FALSE
   DevNoUnblock = FALSE
   DevAliasFlush = FALSE
+  SockQueue = FALSE
+  DevQueueRefs = FALSE
+  DevDropOnClose = FALSE
 INIT UInit
 NEXT UNext
 INVARIANTS UTypeOK UDatagrams UComplete UCompleteAny UEncoded UFlushed UMutex UBuf
